@@ -317,6 +317,15 @@ JudgeUids(post, i) ==
 (* 4. Collection tags: C08                                                  *)
 
 \* C08: a request that is not answered with success leaves every collection tag alone
+\* C08: the stored settings of a collection (they are part of what its tag stands for) change
+\* only through requests that set them
+JudgeCfgFrame(ev, pre, post, i) ==
+    IF ev.op \in {"Proppatch", "Mk", "DeleteColl"} \/ (ev.op = "Restart" /\ ev.defaults) THEN {} ELSE
+    UNION { IF pre.colls[c].cfg # post.colls[c].cfg /\ pre.colls[c].kind # "broken" /\ post.colls[c].kind # "broken"
+              THEN Viol("C08", [w |-> "settings-changed-by-a-request-that-does-not-set-them", c |-> c, op |-> ev.op], i)
+              ELSE {}
+            : c \in Colls(pre) \cap Colls(post) }
+
 JudgeTagFrame(ev, pre, post, i) ==
     IF Reported(ev) \/ ~IsWrite(ev) THEN {}
     ELSE UNION { IF pre.colls[c].tagged /\ pre.colls[c].kind # "broken" /\ post.colls[c].kind # "broken"
@@ -536,7 +545,7 @@ DevFor(v, ev, pre, post, cfg) ==
 Judge(ev, pre, post, i) ==
     LET raw == JudgeEffect(ev, pre, post, i) \cup JudgeFrame(ev, pre, post, i)
                \cup JudgeListing(post, i) \cup JudgeEtags(ev, post, i) \cup JudgeUids(post, i)
-               \cup JudgeTags(post, i) \cup JudgeTagFrame(ev, pre, post, i) \cup JudgeGit(ev, pre, post, i) \cup JudgeSync(post, i)
+               \cup JudgeTags(post, i) \cup JudgeTagFrame(ev, pre, post, i) \cup JudgeCfgFrame(ev, pre, post, i) \cup JudgeGit(ev, pre, post, i) \cup JudgeSync(post, i)
                \cup JudgeMultiget(ev, post, i) \cup JudgeGet(ev, pre, i)
                \cup JudgeReupload(ev, pre, post, i)
     IN  \* a violation that a listed deviation explains exactly becomes a known finding
